@@ -10,7 +10,7 @@
    library on every run. *)
 From Coq Require Import Permutation.
 From Verif Require Import Lib.Bytes Json.Ast Json.Parse Json.Print Json.Render Json.NumFacts
-  Json.ParseComplete Json.CanonFacts Json.CanonC01 Json.CanonSpecC01 Json.C01Proofs Json.CanonFormProofs Json.ParseSound Json.PermFacts Crash.Outcome Json.CompactModelC01 Json.CompactProofsC01
+  Json.ParseComplete Json.CanonFacts Json.CanonC01 Json.CanonSpecC01 Json.C01Proofs Json.CanonFormProofs Json.ParseSound Json.PermFacts Gen.GenC01 Json.DepthC01 Json.DepthProofsC01 Json.DepthExamplesC01 Crash.Outcome Json.CompactModelC01 Json.CompactProofsC01
   Json.CompactValidC01 Gen.GenVersions.
 Open Scope N_scope.
 
@@ -18,19 +18,69 @@ Open Scope N_scope.
 Theorem parse_of_any_rendering : forall v t, RendersText v t -> parse_json t = Some v.
 Proof. exact parse_complete. Qed.
 
-Theorem canonical_of_rendering : forall v t, RendersText v t -> canonical t = Some (canon_print v).
-Proof. exact CanonFacts.canonical_of_rendering. Qed.
+(* ---- the nesting limit (json.go maxJSONDepth, read from the source: Gen/GenC01.v).
+   [nesting_exceeds t limit] is the model of jsonNestingExceeds (a scan over the bytes that does not
+   validate); [canonical_json] = that test, then the validity gate and canonicalisation
+   ([canonical] of Json/Print.v); [json_depth v] is how deep the value nests.  The premise
+   "nesting_exceeds t max_json_depth = false" of the theorems below is, for a JSON text of a value
+   v, exactly "json_depth v <= max_json_depth": *)
+Theorem nesting_scan_measures_the_value : forall v t, RendersText v t ->
+  text_nesting t = json_depth v
+  /\ nesting_exceeds t max_json_depth = (max_json_depth <? json_depth v)%Z.
+Proof.
+  intros v t H. split; [exact (text_nesting_of_rendering v t H) | exact (nesting_of_rendering _ max_depth_nonneg v t H)].
+Qed.
 
-(* the output is again a JSON text, of the normal form of v, which is the same value as v *)
-Theorem canonical_preserves_value : forall v t, RendersText v t ->
-  exists c, canonical t = Some c /\ RendersText (normalise v) c /\ jequiv (normalise v) v
-            /\ parse_json c = Some (normalise v).
-Proof. exact C01Proofs.canonical_preserves_value. Qed.
+(* the same for whatever the parser accepts (lone surrogate escapes included) *)
+Theorem nesting_scan_measures_parsed_value : forall t v, parse_json t = Some v -> text_nesting t = json_depth v.
+Proof. exact text_nesting_of_parsed. Qed.
 
-(* any two texts of the same value canonicalise to identical bytes ... *)
+Theorem nesting_exceeds_is_a_comparison : forall t limit, (0 <= limit)%Z ->
+  nesting_exceeds t limit = (limit <? text_nesting t)%Z.
+Proof. exact nesting_exceeds_spec. Qed.
+
+(* the limit and its two call sites, as the source has them *)
+Theorem depth_limit_as_in_the_source :
+  max_json_depth = spec_max_nesting /\ gen_canonical_json_guards_depth = true /\ gen_enforced_check_guards_depth = true.
+Proof. vm_compute. auto. Qed.
+
+Theorem canonical_of_rendering : forall v t,
+  RendersText v t -> nesting_exceeds t max_json_depth = false -> canonical_json t = Some (canon_print v).
+Proof. exact (cj_within max_json_depth _). Qed.
+
+(* the same, with the bound read on the value *)
+Theorem canonical_of_rendering_by_depth : forall v t,
+  RendersText v t -> (json_depth v <= max_json_depth)%Z -> canonical_json t = Some (canon_print v).
+Proof. exact (cj_shallow max_json_depth max_depth_nonneg _). Qed.
+
+(* deeper documents are refused, JSON or not *)
+Theorem canonical_refuses_deep_nesting : forall t, nesting_exceeds t max_json_depth = true -> canonical_json t = None.
+Proof. exact (cj_beyond max_json_depth). Qed.
+
+Theorem canonical_refuses_deep_values : forall v t,
+  RendersText v t -> (max_json_depth < json_depth v)%Z -> canonical_json t = None.
+Proof. exact (cj_deep max_json_depth max_depth_nonneg). Qed.
+
+(* whatever is accepted is what the unguarded canonicalisation gives, and nests within the limit *)
+Theorem canonical_json_is_canonical : forall t c, canonical_json t = Some c -> canonical t = Some c.
+Proof. exact (cj_some max_json_depth _). Qed.
+
+Theorem canonical_accepts_only_shallow : forall t c, canonical_json t = Some c ->
+  exists v, parse_json t = Some v /\ c = canon_print v /\ (json_depth v <= max_json_depth)%Z.
+Proof. exact (cj_accepts_shallow max_json_depth max_depth_nonneg). Qed.
+
+(* the output is again a JSON text, of the normal form of v, which is the same value as v, and it
+   nests within the limit as well *)
+Theorem canonical_preserves_value : forall v t, RendersText v t -> nesting_exceeds t max_json_depth = false ->
+  exists c, canonical_json t = Some c /\ RendersText (normalise v) c /\ jequiv (normalise v) v
+            /\ parse_json c = Some (normalise v) /\ nesting_exceeds c max_json_depth = false.
+Proof. exact (cj_preserves max_json_depth max_depth_nonneg _). Qed.
+
+(* any two texts of the same value are accepted or refused together, and accepted with identical
+   bytes (no premise on the depth: equal values nest equally deep) ... *)
 Theorem canonical_unique : forall v v' t t',
-  RendersText v t -> RendersText v' t' -> jequiv v v' -> canonical t = canonical t'.
-Proof. exact C01Proofs.canonical_unique. Qed.
+  RendersText v t -> RendersText v' t' -> jequiv v v' -> canonical_json t = canonical_json t'.
+Proof. exact (cj_unique max_json_depth max_depth_nonneg _). Qed.
 
 (* the same with the relation spelled out: [json_perm] (Json/PermFacts.v) = equal up to a permutation
    of the members of every object (keys without duplicates) and the spelling of integers *)
@@ -38,19 +88,15 @@ Theorem json_perm_is_equivalence_of_values : forall v v', json_perm v v' -> jequ
 Proof. exact json_perm_equiv. Qed.
 
 Theorem canonical_unique_up_to_member_order : forall v v' t t',
-  RendersText v t -> RendersText v' t' -> json_perm v v' -> canonical t = canonical t'.
+  RendersText v t -> RendersText v' t' -> json_perm v v' -> canonical_json t = canonical_json t'.
 Proof.
-  intros v v' t t' H H' P. exact (C01Proofs.canonical_unique v v' t t' H H' (json_perm_equiv v v' P)).
+  intros v v' t t' H H' P. exact (cj_unique max_json_depth max_depth_nonneg _ v v' t t' H H' (json_perm_equiv v v' P)).
 Qed.
 
-(* ... and texts of different values never do *)
-Theorem canonical_separates : forall v v' t t',
-  RendersText v t -> RendersText v' t' -> canonical t = canonical t' -> jequiv v v'.
-Proof. exact C01Proofs.canonical_separates. Qed.
-
-Theorem canonical_idempotent : forall v t c,
-  RendersText v t -> canonical t = Some c -> canonical c = Some c.
-Proof. exact C01Proofs.canonical_idempotent. Qed.
+(* ... and texts of different values never get the same bytes *)
+Theorem canonical_separates : forall v v' t t' c,
+  RendersText v t -> RendersText v' t' -> canonical_json t = Some c -> canonical_json t' = Some c -> jequiv v v'.
+Proof. exact (cj_separates max_json_depth _). Qed.
 
 (* ---- validity.  [LRendersText] (Json/ParseSound.v) is the same grammar plus lone surrogate
    escapes (grammatical JSON, ill-formed Unicode, read as U+FFFD): the largest set a validator that
@@ -59,27 +105,31 @@ Theorem parse_accepts_only_json : forall t v, parse_json t = Some v -> LRendersT
 Proof. exact parse_sound. Qed.
 
 (* ... so a text that is not JSON is refused *)
-Theorem canonical_rejects_invalid : forall t, (forall v, ~ LRendersText v t) -> canonical t = None.
-Proof. exact ParseSound.canonical_rejects_invalid. Qed.
+Theorem canonical_rejects_invalid : forall t, (forall v, ~ LRendersText v t) -> canonical_json t = None.
+Proof. intros t H. exact (cj_none max_json_depth _ t (ParseSound.canonical_rejects_invalid t H)). Qed.
 
 Theorem strict_grammar_within_loose : forall v t, RendersText v t -> LRendersText v t.
 Proof. exact renders_text_loose. Qed.
 
 (* for every accepted input whatsoever (duplicate keys, lone surrogates included): the output is a
    JSON text of the strict grammar, and canonicalising it again changes nothing *)
-Theorem canonical_output_valid : forall t c, canonical t = Some c -> exists v, RendersText v c.
-Proof. exact ParseSound.canonical_output_valid. Qed.
+Theorem canonical_output_valid : forall t c, canonical_json t = Some c -> exists v, RendersText v c.
+Proof. intros t c H. exact (ParseSound.canonical_output_valid t c (cj_some max_json_depth _ t c H)). Qed.
 
-Theorem canonical_idempotent_all : forall t c, canonical t = Some c -> canonical c = Some c.
-Proof. exact ParseSound.canonical_idempotent_all. Qed.
+Theorem canonical_idempotent_all : forall t c, canonical_json t = Some c -> canonical_json c = Some c.
+Proof. exact (cj_idempotent max_json_depth max_depth_nonneg _). Qed.
+
+Theorem canonical_idempotent : forall v t c,
+  RendersText v t -> canonical_json t = Some c -> canonical_json c = Some c.
+Proof. intros v t c _. exact (cj_idempotent max_json_depth max_depth_nonneg _ t c). Qed.
 
 (* the output is in the one canonical form: nothing but structure outside strings (no whitespace),
    only the shortest escapes inside strings, object keys strictly increasing in byte (= code point)
    order at every level, no literal -0  (is_canonical_text, Json/CanonSpecC01.v); the domain is
    texts without duplicate keys *)
 Theorem canonical_is_canonical_form : forall v t c,
-  RendersText v t -> json_nodup v = true -> canonical t = Some c -> is_canonical_text c = true.
-Proof. exact CanonFormProofs.canonical_is_canonical_form. Qed.
+  RendersText v t -> json_nodup v = true -> canonical_json t = Some c -> is_canonical_text c = true.
+Proof. exact (cj_form max_json_depth _). Qed.
 
 (* reused by C02, C03, C13 *)
 Theorem canon_print_injective : forall v v',
@@ -89,21 +139,28 @@ Proof. exact CanonFacts.canon_print_injective. Qed.
 Theorem canon_print_respects : forall v v', jequiv v v' -> canon_print v = canon_print v'.
 Proof. exact CanonFacts.canon_print_respects. Qed.
 
-(* room versions whose generated table entry names the enforcing check refuse every text with a
-   number that is not an integer literal within +/-(2^53-1) *)
+(* ---- the enforced variant ([enforced_json]: version lookup, then for enforcing versions the nesting
+   test and the number check of verifyEnforcedCanonicalJSON, then CanonicalJSON).
+   Room versions whose generated table entry names the enforcing check refuse every text with a
+   number that is not an integer literal within +/-(2^53-1) (whatever the depth) *)
 Theorem enforced_rejects_non_integers : forall v t ver,
-  enforces ver = true -> RendersText v t -> has_unsafe_number v = true -> enforced ver t = None.
-Proof. exact C01Proofs.enforced_rejects. Qed.
+  enforces ver = true -> RendersText v t -> has_unsafe_number v = true -> enforced_json ver t = None.
+Proof. exact (ej_rejects max_json_depth _ _). Qed.
 
-(* and accept (with the plain canonical form) every text all of whose numbers are integer literals
-   within the range other than the literal -0 *)
+(* and accept (with the plain canonical form) every text within the nesting limit all of whose
+   numbers are integer literals within the range other than the literal -0 *)
 Theorem enforced_accepts_safe_integers : forall v t ver,
   enforces ver = true -> RendersText v t -> has_bad_number v = false ->
-  enforced ver t = Some (canon_print v).
-Proof. exact C01Proofs.enforced_accepts. Qed.
+  nesting_exceeds t max_json_depth = false ->
+  enforced_json ver t = Some (canon_print v).
+Proof. exact (ej_within max_json_depth max_depth_nonneg _ _). Qed.
 
-Theorem enforced_otherwise_canonical : forall ver t c, enforced ver t = Some c -> canonical t = Some c.
-Proof. exact C01Proofs.enforced_otherwise_canonical. Qed.
+Theorem enforced_refuses_deep_nesting : forall ver t,
+  nesting_exceeds t max_json_depth = true -> enforced_json ver t = None.
+Proof. exact (ej_beyond max_json_depth). Qed.
+
+Theorem enforced_otherwise_canonical : forall ver t c, enforced_json ver t = Some c -> canonical_json t = Some c.
+Proof. exact (ej_some max_json_depth _ _). Qed.
 
 (* the generated canonicalJSONCheck column names the enforcing check exactly for room versions 6+
    (the unstable ones as the source has them); all others name the no-op *)
@@ -163,12 +220,12 @@ Proof.
 Qed.
 
 Example ex_canonical :
-  canonical (bs " {""b"" : [1.50, -0, ""é\n\/""], ""a"":{} } ")
+  canonical_json (bs " {""b"" : [1.50, -0, ""é\n\/""], ""a"":{} } ")
   = Some (bs "{""a"":{},""b"":[1.50,0,""" ++ [195; 169] ++ bs "\n/""]}").
 Proof. vm_compute. reflexivity. Qed.
 
 Example ex_unique_instance :
-  canonical (bs "{""a"":1,""b"":-0}") = canonical (bs " { ""b"" : 0 , ""a"" : 1 } ").
+  canonical_json (bs "{""a"":1,""b"":-0}") = canonical_json (bs " { ""b"" : 0 , ""a"" : 1 } ").
 Proof. vm_compute. reflexivity. Qed.
 
 (* the premise of canonical_rejects_invalid is satisfiable: the empty text is no value's text *)
@@ -182,7 +239,7 @@ Proof.
   destruct Hip as [Hip | (d & ds & Hip & _)]; discriminate.
 Qed.
 
-Example ex_rejects : canonical (bs "[1,]") = None /\ canonical (bs "{""a"":01}") = None /\ canonical [] = None.
+Example ex_rejects : canonical_json (bs "[1,]") = None /\ canonical_json (bs "{""a"":01}") = None /\ canonical_json [] = None.
 Proof. vm_compute. auto. Qed.
 
 Example ex_perm :
@@ -195,17 +252,60 @@ Proof.
   - repeat constructor.
 Qed.
 
+(* the premise of the completeness theorems is satisfiable, and both sides of the boundary:
+   arrays nested n+1 deep (n brackets around an empty array) are accepted, unchanged, exactly when
+   n + 1 <= maxJSONDepth; the scan ignores brackets inside strings and after a backslash, and is
+   fooled by closers that come first (such a text is not JSON and is refused by the validity gate) *)
+Example ex_nesting_within : nesting_exceeds (bs " {""\u0061"" : -0}") max_json_depth = false.
+Proof. vm_compute. reflexivity. Qed.
+
+Theorem nested_arrays_at_any_depth : forall n,
+  canonical_json (nest_arrays n [91; 93]) =
+    if (Z.of_nat n + 1 <=? max_json_depth)%Z then Some (nest_arrays n [91; 93]) else None.
+Proof. intro n. exact (nested_arrays_boundary max_json_depth n max_depth_nonneg). Qed.
+
+Example ex_boundary_accepted : forall n, Z.of_nat n = 9999%Z ->
+  canonical_json (nest_arrays n [91; 93]) = Some (nest_arrays n [91; 93]).
+Proof. intros n H. rewrite nested_arrays_at_any_depth, H. reflexivity. Qed.
+
+Example ex_boundary_refused : forall n, Z.of_nat n = 10000%Z -> canonical_json (nest_arrays n [91; 93]) = None.
+Proof. intros n H. rewrite nested_arrays_at_any_depth, H. reflexivity. Qed.
+
+(* evaluated directly on the generated texts of 10000 and 10001 levels (Json/DepthExamplesC01.v) *)
+Example ex_boundary_by_evaluation :
+  nesting_exceeds (nest_arrays (N.to_nat 9999) [91; 93]) max_json_depth = false
+  /\ nesting_exceeds (nest_arrays (N.to_nat 10000) [91; 93]) max_json_depth = true
+  /\ canonical_json_accepts (nest_arrays (N.to_nat 9999) [91; 93]) = true
+  /\ canonical_json_accepts (nest_arrays (N.to_nat 10000) [91; 93]) = false.
+Proof. exact boundary_by_evaluation. Qed.
+
+Example ex_scan_details :
+  nesting_exceeds (bs "[""[[[[""]") 1 = false /\ nesting_exceeds (bs "[""\""[[""]") 1 = false
+  /\ nesting_exceeds (bs "[""\\"",[[]]]") 2 = true /\ nesting_exceeds (bs "]]]][[[[") 0 = false
+  /\ nesting_exceeds (bs "[[]]") 2 = false /\ nesting_exceeds (bs "[[],[],[[]]]") 2 = true
+  /\ text_nesting (bs "{""a"":[1,{""b"":[]}],""c"":{}}") = 4%Z.
+Proof. vm_compute. repeat split; reflexivity. Qed.
+
 Example ex_unsafe : has_unsafe_number (JArr [JNum (bs "1"); JNum (bs "9007199254740992")]) = true
                     /\ has_unsafe_number (JArr [JNum (bs "0.0")]) = true
                     /\ has_unsafe_number (JArr [JNum (bs "-9007199254740991")]) = false.
 Proof. vm_compute. auto. Qed.
 
-Example ex_enforced : enforced (bs "10") (bs "[1E2]") = None /\ enforced (bs "5") (bs "[1E2]") = Some (bs "[1E2]")
-                      /\ enforced (bs "6") (bs "[-9007199254740991]") = Some (bs "[-9007199254740991]").
+Example ex_enforced : enforced_json (bs "10") (bs "[1E2]") = None /\ enforced_json (bs "5") (bs "[1E2]") = Some (bs "[1E2]")
+                      /\ enforced_json (bs "6") (bs "[-9007199254740991]") = Some (bs "[-9007199254740991]").
 Proof. vm_compute. auto. Qed.
 
 Print Assumptions parse_of_any_rendering.
+Print Assumptions nesting_scan_measures_the_value.
+Print Assumptions nesting_scan_measures_parsed_value.
+Print Assumptions nesting_exceeds_is_a_comparison.
+Print Assumptions depth_limit_as_in_the_source.
 Print Assumptions canonical_of_rendering.
+Print Assumptions canonical_of_rendering_by_depth.
+Print Assumptions canonical_refuses_deep_nesting.
+Print Assumptions canonical_refuses_deep_values.
+Print Assumptions canonical_json_is_canonical.
+Print Assumptions canonical_accepts_only_shallow.
 Print Assumptions canonical_preserves_value.
 Print Assumptions canonical_unique.
 Print Assumptions json_perm_is_equivalence_of_values.
@@ -222,7 +322,9 @@ Print Assumptions canon_print_injective.
 Print Assumptions canon_print_respects.
 Print Assumptions enforced_rejects_non_integers.
 Print Assumptions enforced_accepts_safe_integers.
+Print Assumptions enforced_refuses_deep_nesting.
 Print Assumptions enforced_otherwise_canonical.
+Print Assumptions nested_arrays_at_any_depth.
 Print Assumptions compact_no_panic.
 Print Assumptions compact_no_panic_on_renderings.
 Print Assumptions compact_crashes_exactly_when_unsafe.
